@@ -804,4 +804,348 @@ theorem fromMrsWith_off {pm : PM} {m : MRS} {reps : Reps} {e : EDS} {w : List Wa
   refine ⟨{ top := top, nodes := nodes }, ?_, h6.symm, addl, h4, h5⟩
   simp only [fromMrsWith, h1, h2, h3, addlOf, applyAddl, foldE, h7]
 
+
+/-- the justification relation of the property: a bound-variable edge, an argument edge, or (only
+when predicate modifiers are requested) a predicate-modifier edge between two predications of one
+scope that are not connected in the graph `E` of the other dependencies -/
+def EdgeJust (m : MRS) (pmOn : Bool) (E : List (Var × Var)) (s : Pred) (r : Role) (t : Pred) : Prop :=
+  BVJust s r t ∨ ArgJust m s r t ∨ (pmOn = true ∧ PMJust E s r t)
+
+def PM.isOn : PM → Bool
+  | .off => false
+  | _ => true
+
+theorem fromMrsWith_spec {pm : PM} {m : MRS} {reps : Reps} (hid : m.ids.Nodup) (hnr : NoReserved m)
+    (hr : RepsOK m reps) (hpm : pm = .off ∨ pm = .std) {e : EDS} {w : List Warn}
+    (h : fromMrsWith pm m reps = .ok (e, w)) :
+    ∃ e0, fromMrsWith .off m reps = .ok (e0, w) ∧
+      All2 (fun p n => n.id = p.1 ∧ NodeData m p n) m.preds e.nodes ∧
+      RawJust m (EdgeJust m pm.isOn (edgePairs e0.nodes)) e.nodes := by
+  obtain ⟨top, w1, deps, w2, nodes, addl, h1, h2, h3, h4, h5, h6, h7⟩ := fromMrsWith_decomp h
+  obtain ⟨e0, he0, _, addl', h4', h5'⟩ := fromMrsWith_off h
+  obtain ⟨_, _, deps0, _, nodes0, _, _, h2_0, h3_0, h4_0, h5_0, _, _⟩ := fromMrsWith_decomp he0
+  -- the node list of the run without modifiers is `nodes`
+  have hdeps : deps0 = deps := by rw [h2] at h2_0; simp only [Except.ok.injEq, Prod.mk.injEq] at h2_0; exact h2_0.1.symm
+  subst hdeps
+  have hnodes0 : nodes0 = nodes := by rw [h3] at h3_0; simp only [Except.ok.injEq] at h3_0; exact h3_0.symm
+  subst hnodes0
+  have he0n : e0.nodes = nodes0 := by
+    simp only [addlOf, Except.ok.injEq] at h4_0
+    subst h4_0
+    simp only [applyAddl, foldE, Except.ok.injEq] at h5_0
+    exact h5_0.symm
+  have hN := nodes_spec hnr h3
+  have hN' : All2 (fun p n => n.id = p.1 ∧ NodeData m p n) m.preds nodes0 :=
+    hN.imp (fun _ _ _ _ ⟨a, _, c⟩ => ⟨a, c⟩)
+  have hJ := nodes_rawjust hid (basicDeps_ok hr hnr h2) hN
+  have hadd : AddlOK m (edgePairs nodes0) addl := by
+    rcases hpm with rfl | rfl
+    · simp only [addlOf, Except.ok.injEq] at h4
+      subst h4
+      intro k es hk; simp at hk
+    · exact findPredicateModifiers_ok hr hid h4
+  obtain ⟨hA, hB⟩ := rawjust_add hid hadd hN' hJ (applyAddl_spec _ _ _ h5)
+  refine ⟨e0, he0, hA, ?_⟩
+  rw [he0n]
+  rcases hpm with rfl | rfl
+  · -- no modifiers: the node list is unchanged
+    simp only [addlOf, Except.ok.injEq] at h4
+    subst h4
+    simp only [applyAddl, foldE, Except.ok.injEq] at h5
+    rw [← h5]
+    intro pn hpn rt hrt
+    obtain ⟨t, ht, htt, hj⟩ := hJ pn hpn rt hrt
+    exact ⟨t, ht, htt, hj.elim Or.inl (fun h => Or.inr (Or.inl h))⟩
+  · intro pn hpn rt hrt
+    obtain ⟨t, ht, htt, hj⟩ := hB pn hpn rt hrt
+    refine ⟨t, ht, htt, ?_⟩
+    rcases hj with (hj | hj) | hj
+    · exact Or.inl hj
+    · exact Or.inr (Or.inl hj)
+    · exact Or.inr (Or.inr ⟨rfl, hj⟩)
+
+/-! ### `make_ids_unique` (renaming) -/
+
+theorem renameNode_spec {nids : List (Var × Var)} {n n' : ENode} (h : renameNode nids n = .ok n') :
+    n'.core = n.core ∧ renameId nids n.id = .ok n'.id ∧
+    All2 (fun e e' => e'.1 = e.1 ∧ renameId nids e.2 = .ok e'.2) n.edges n'.edges := by
+  unfold renameNode at h
+  split at h
+  · exact absurd h (by simp)
+  · rename_i i hi
+    split at h
+    · exact absurd h (by simp)
+    · rename_i es hes
+      simp only [Except.ok.injEq] at h
+      subst h
+      refine ⟨rfl, hi, (mapE_forall₂ hes).imp ?_⟩
+      intro a b _ _ hab
+      unfold renameEdge at hab
+      split at hab
+      · exact absurd hab (by simp)
+      · rename_i t ht
+        simp only [Except.ok.injEq] at hab
+        subst hab
+        exact ⟨rfl, ht⟩
+
+theorem renamed_justified {m : MRS} {J : Pred → Role → Pred → Prop} {nids : List (Var × Var)}
+    {nodes nodes' : List ENode}
+    (hn : All2 (fun p n => n.id = p.1 ∧ NodeData m p n) m.preds nodes) (hj : RawJust m J nodes)
+    (hr : mapE (renameNode nids) nodes = .ok nodes') :
+    All2 (fun p n => renameId nids p.1 = .ok n.id ∧ NodeData m p n) m.preds nodes' ∧
+    Justified m J nodes' := by
+  have hR := (mapE_forall₂ hr).imp (fun _ _ _ _ h => renameNode_spec h)
+  have hc := All2.comp_zip hn hR
+  have hA : All2 (fun p n => renameId nids p.1 = .ok n.id ∧ NodeData m p n) m.preds nodes' := by
+    refine hc.imp ?_
+    intro p n' _ _ ⟨n, _, ⟨h1, h2⟩, ⟨h3, h4, _⟩⟩
+    exact ⟨by rw [← h1]; exact h4, h2.of_core h3⟩
+  refine ⟨hA, ?_⟩
+  intro pn hpn rt' hrt'
+  obtain ⟨n, hz, _, ⟨_, _, hE⟩⟩ := hc.of_zip pn hpn
+  obtain ⟨rt, hrt, _, hr1, hr2⟩ := hE.mem_left rt' hrt'
+  obtain ⟨t, ht, htt, hJ⟩ := hj (pn.1, n) hz rt hrt
+  obtain ⟨nt', _, hz', hnt', _⟩ := hA.mem_right t ht
+  refine ⟨(t, nt'), hz', ?_, by rw [hr1]; exact hJ⟩
+  rw [htt, hr2] at hnt'
+  simp only [Except.ok.injEq] at hnt'
+  exact hnt'.symm
+
+
+/-! ### the top -/
+
+theorem getTop_spec {m : MRS} {reps : Reps} (hr : RepsOK m reps) {t : Var} {w : List Warn}
+    (h : getTop m reps = .ok (some t, w)) : ∃ p ∈ m.preds, p.1 = t := by
+  have key : ∀ {ps : List Pred} {l : Var} {w' : List Warn}, dlookup l reps = some ps →
+      topOf ps w' = .ok (some t, w) → ∃ p ∈ m.preds, p.1 = t := by
+    intro ps l w' hl ht
+    unfold topOf at ht
+    split at ht
+    · exact absurd ht (by simp)
+    · rename_i t' ht'
+      simp only [Except.ok.injEq, Prod.mk.injEq, Option.some.injEq] at ht
+      obtain ⟨p, hp, hpt, _, _⟩ := firstRep_of_reps hr hl ht'
+      exact ⟨p, hp, by rw [hpt]; exact ht.1⟩
+  unfold getTop at h
+  dsimp only at h
+  split at h
+  · rename_i ps hps
+    cases hhc : m.top.bind m.hcLast with
+    | none => rw [hhc] at hps; simp at hps
+    | some hc =>
+      rw [hhc] at hps
+      simp only [Option.bind_some] at hps
+      exact key hps h
+  · split at h
+    · rename_i ps hps
+      cases htop : m.top with
+      | none => rw [htop] at hps; simp at hps
+      | some tp =>
+        rw [htop] at hps
+        simp only [Option.bind_some] at hps
+        exact key hps h
+    · split at h
+      · split at h
+        · rename_i ps hps
+          exact key hps h
+        · simp at h
+      · simp at h
+
+theorem renameTop_spec {nids : List (Var × Var)} {t t' : Var}
+    (h : renameTop nids (some t) = .ok (some t')) : renameId nids t = .ok t' := by
+  simp only [renameTop] at h
+  split at h
+  · exact absurd h (by simp)
+  · rename_i t'' ht''
+    injection h with h
+    injection h with h
+    rw [ht'', h]
+
+/-! ### the whole conversion -/
+
+theorem fromMrs_spec {pm : PM} {uniq : Bool} {m : MRS} (hid : m.ids.Nodup) (hnr : NoReserved m)
+    (hpm : pm = .off ∨ pm = .std) {e : EDS} {w : List Warn} (h : fromMrs pm uniq m = .ok (e, w)) :
+    ∃ e0, fromMrs .off false m = .ok (e0, w) ∧
+      All2 (fun p n => NodeData m p n ∧ (uniq = false → n.id = p.1)) m.preds e.nodes ∧
+      Justified m (EdgeJust m pm.isOn (edgePairs e0.nodes)) e.nodes ∧
+      (∀ t, e.top = some t → ∃ pn ∈ m.preds.zip e.nodes, pn.2.id = t) := by
+  unfold fromMrs fromMrsRaw at h
+  split at h
+  · exact absurd h (by simp)
+  · rename_i raw w' hraw
+    split at hraw
+    · exact absurd hraw (by simp)
+    · rename_i reps hreps
+      have hr := representatives_repsOK hreps
+      obtain ⟨e0, he0, hN, hJ⟩ := fromMrsWith_spec hid hnr hr hpm hraw
+      have hoff : fromMrs .off false m = .ok (e0, w') := by
+        simp only [fromMrs, fromMrsRaw, hreps, he0]
+        rfl
+      obtain ⟨top, w1, _, _, _, _, htop, _, _, _, _, hetop, _⟩ := fromMrsWith_decomp hraw
+      have hrawtop : ∀ t, raw.top = some t → ∃ p ∈ m.preds, p.1 = t := by
+        intro t ht
+        rw [hetop] at ht
+        subst ht
+        exact getTop_spec hr htop
+      cases uniq with
+      | false =>
+        simp only [Bool.false_eq_true, if_false, Except.ok.injEq, Prod.mk.injEq] at h
+        obtain ⟨rfl, rfl⟩ := h
+        refine ⟨e0, hoff, hN.imp (fun _ _ _ _ ⟨a, b⟩ => ⟨b, fun _ => a⟩), justified_of_raw hN hJ, ?_⟩
+        intro t ht
+        obtain ⟨p, hp, hpt⟩ := hrawtop t ht
+        obtain ⟨n, _, hz, hn⟩ := hN.mem_right p hp
+        exact ⟨(p, n), hz, by rw [hn.1]; exact hpt⟩
+      | true =>
+        simp only [if_true] at h
+        split at h
+        · exact absurd h (by simp)
+        · rename_i e' he'
+          simp only [Except.ok.injEq, Prod.mk.injEq] at h
+          obtain ⟨rfl, rfl⟩ := h
+          unfold makeIdsUnique at he'
+          dsimp only at he'
+          split at he'
+          · exact absurd he' (by simp)
+          · rename_i top' htop'
+            split at he'
+            · exact absurd he' (by simp)
+            · rename_i nodes' hnodes'
+              simp only [Except.ok.injEq] at he'
+              subst he'
+              obtain ⟨hA, hJ'⟩ := renamed_justified hN hJ hnodes'
+              refine ⟨e0, hoff, hA.imp (fun _ _ _ _ ⟨_, b⟩ => ⟨b, fun hf => absurd hf (by simp)⟩), hJ', ?_⟩
+              intro t' ht'
+              simp only at ht'
+              subst ht'
+              cases hrt : raw.top with
+              | none => rw [hrt] at htop'; simp [renameTop] at htop'
+              | some t =>
+                rw [hrt] at htop'
+                have hren := renameTop_spec htop'
+                obtain ⟨p, hp, hpt⟩ := hrawtop t hrt
+                obtain ⟨n, _, hz, hn, _⟩ := hA.mem_right p hp
+                refine ⟨(p, n), hz, ?_⟩
+                rw [hpt, hren] at hn
+                simp only [Except.ok.injEq] at hn
+                exact hn.symm
+
+
+/-! ### shape, for every configuration -/
+
+theorem fromMrsWith_shape {pm : PM} {m : MRS} {reps : Reps} (hnr : NoReserved m) {e : EDS}
+    {w : List Warn} (h : fromMrsWith pm m reps = .ok (e, w)) :
+    All2 (fun p n => n.id = p.1 ∧ NodeData m p n) m.preds e.nodes := by
+  obtain ⟨_, _, deps, _, nodes, addl, _, _, h3, _, h5, _, _⟩ := fromMrsWith_decomp h
+  refine All2.comp (nodes_spec hnr h3) (applyAddl_spec _ _ _ h5) ?_
+  intro p n n' ⟨h1, _, h2⟩ ⟨h3', h4, _⟩
+  exact ⟨by rw [h4, h1], h2.of_core h3'⟩
+
+theorem fromMrs_shape_aux {pm : PM} {uniq : Bool} {m : MRS} (hnr : NoReserved m) {e : EDS}
+    {w : List Warn} (h : fromMrs pm uniq m = .ok (e, w)) :
+    All2 (fun p n => NodeData m p n ∧ (uniq = false → n.id = p.1)) m.preds e.nodes := by
+  unfold fromMrs fromMrsRaw at h
+  split at h
+  · exact absurd h (by simp)
+  · rename_i raw w' hraw
+    split at hraw
+    · exact absurd hraw (by simp)
+    · have hN := fromMrsWith_shape hnr hraw
+      cases uniq with
+      | false =>
+        simp only [Bool.false_eq_true, if_false, Except.ok.injEq, Prod.mk.injEq] at h
+        obtain ⟨rfl, rfl⟩ := h
+        exact hN.imp (fun _ _ _ _ ⟨a, b⟩ => ⟨b, fun _ => a⟩)
+      | true =>
+        simp only [if_true] at h
+        split at h
+        · exact absurd h (by simp)
+        · rename_i e' he'
+          simp only [Except.ok.injEq, Prod.mk.injEq] at h
+          obtain ⟨rfl, rfl⟩ := h
+          unfold makeIdsUnique at he'
+          dsimp only at he'
+          split at he'
+          · exact absurd he' (by simp)
+          · split at he'
+            · exact absurd he' (by simp)
+            · rename_i nodes' hnodes'
+              simp only [Except.ok.injEq] at he'
+              subst he'
+              have hR := (mapE_forall₂ hnodes').imp (fun _ _ _ _ h => renameNode_spec h)
+              refine All2.comp hN hR ?_
+              intro p n n' ⟨_, h2⟩ ⟨h3, _, _⟩
+              exact ⟨h2.of_core h3, fun hf => absurd hf (by simp)⟩
+
+theorem All2.map_eq {α β γ : Type} {f : α → γ} {g : β → γ} {l : List α} {l' : List β}
+    (h : All2 (fun a b => g b = f a) l l') : l'.map g = l.map f := by
+  induction h with
+  | nil => rfl
+  | cons hr _ ih => simp [hr, ih]
+
+theorem fromMrs_ids_raw {pm : PM} {m : MRS} (hnr : NoReserved m) {e : EDS} {w : List Warn}
+    (h : fromMrs pm false m = .ok (e, w)) : e.nodes.map (·.id) = m.ids := by
+  have := (fromMrs_shape_aux hnr h).imp (fun _ _ _ _ ⟨_, b⟩ => b rfl)
+  rw [All2.map_eq (f := fun p : Pred => p.1) (g := fun n : ENode => n.id) this]
+  exact preds_map_fst m
+
+/-! ### `_uniquify_ids` makes the EP ids pairwise distinct -/
+
+theorem uniquify_nodup : ∀ (l : List Var) (n : Nat) (seen : List Var),
+    (∀ x ∈ l, x.sort ≠ "_") → (∀ x ∈ seen, x.sort = "_" → x.vid < n) →
+    (uniquify n seen l).Nodup ∧ ∀ y ∈ uniquify n seen l, y ∉ seen := by
+  intro l
+  induction l with
+  | nil => intro n seen _ _; exact ⟨List.nodup_nil, fun y hy => absurd hy List.not_mem_nil⟩
+  | cons i is ih =>
+    intro n seen hl hs
+    have hl' : ∀ x ∈ is, x.sort ≠ "_" := fun x hx => hl x (List.mem_cons_of_mem _ hx)
+    unfold uniquify
+    split
+    · -- a repeated id is replaced by `_n`
+      have hfresh : (⟨"_", n⟩ : Var) ∉ seen := fun hmem => Nat.lt_irrefl n (hs _ hmem rfl)
+      have hs' : ∀ x ∈ (⟨"_", n⟩ : Var) :: seen, x.sort = "_" → x.vid < n + 1 := by
+        intro x hx hsort
+        rcases List.mem_cons.1 hx with rfl | hx
+        · exact Nat.lt_succ_self n
+        · exact Nat.lt_succ_of_lt (hs x hx hsort)
+      obtain ⟨h1, h2⟩ := ih (n + 1) (⟨"_", n⟩ :: seen) hl' hs'
+      refine ⟨List.nodup_cons.2 ⟨fun hmem => h2 _ hmem List.mem_cons_self, h1⟩, ?_⟩
+      intro y hy
+      rcases List.mem_cons.1 hy with rfl | hy
+      · exact hfresh
+      · exact fun hmem => h2 y hy (List.mem_cons_of_mem _ hmem)
+    · rename_i hnot
+      have hs' : ∀ x ∈ i :: seen, x.sort = "_" → x.vid < n := by
+        intro x hx hsort
+        rcases List.mem_cons.1 hx with rfl | hx
+        · exact absurd hsort (hl x List.mem_cons_self)
+        · exact hs x hx hsort
+      obtain ⟨h1, h2⟩ := ih n (i :: seen) hl' hs'
+      refine ⟨List.nodup_cons.2 ⟨fun hmem => h2 _ hmem List.mem_cons_self, h1⟩, ?_⟩
+      intro y hy
+      rcases List.mem_cons.1 hy with rfl | hy
+      · exact hnot
+      · exact fun hmem => h2 y hy (List.mem_cons_of_mem _ hmem)
+
+/-- `uniquifyIds_nodup`: when every non-quantifier EP has an ARG0 and no ARG0 has the sort `_`,
+the EP ids after `_uniquify_ids` are pairwise distinct -/
+theorem ids_nodup {m : MRS} (hnr : NoReserved m) (hc : m.hasCompleteIVs = true) : m.ids.Nodup := by
+  unfold MRS.ids
+  refine (uniquify_nodup _ _ [] ?_ (fun x hx => absurd hx List.not_mem_nil)).1
+  intro x hx
+  obtain ⟨ep, hep, rfl⟩ := List.mem_map.1 hx
+  unfold MRS.hasCompleteIVs at hc
+  have hc' := List.all_eq_true.1 hc ep hep
+  unfold EP.baseId
+  by_cases hq : ep.isQuantifier = true
+  · rw [if_pos hq]
+    show ("q" : String) ≠ "_"
+    decide
+  · rw [if_neg hq]
+    simp only [hq, Bool.false_or] at hc'
+    obtain ⟨v, hv⟩ := Option.isSome_iff_exists.1 hc'
+    rw [hv]
+    exact (hnr ep hep v hv).1
+
 end Verif.C05
